@@ -10,6 +10,7 @@ import Tdgl.Operators
 import Tdgl.Update
 import Tdgl.Runner
 import Tdgl.Reader
+import Tdgl.RunningState
 import Tdgl.Adaptive
 import Tdgl.Handler
 import Tdgl.Options
@@ -312,6 +313,15 @@ def step (st : St) (line : String) : St × String :=
       let pts : List (Float × Float) := (List.range xa.size).map (fun i => (xa.getD i 0, ya.getD i 0))
       let T : Affine Float := ⟨f a, f bb, f c, f d, f tx, f ty⟩
       (st, b (signedArea2 (pts.map T.apply)))
+    | ["rs", width], [ops] =>
+      -- the per-step record buffer: ops  a<bits> = append + step += 1, c = clear, f = flush (prints the row)
+      let w := nat width
+      let (_, outs) := (toks ops).foldl (fun (acc : RState Float × List String) t =>
+        let (r, o) := acc
+        if t == "c" then (RState.clear, o)
+        else if t == "f" then (r, o ++ [" ".intercalate ((r.flush w).map b)])
+        else (r.record (f (t.drop 1).toString), o)) ((RState.clear : RState Float), [])
+      (st, " ; ".intercalate outs)
     | ["topo"], [tris] =>
       -- connectivity from the triangle list: edges | boundary edge indices | boundary sites | #adjacent triangles per edge
       let a := nats tris
